@@ -275,6 +275,12 @@ def check(prop, tier, seed):
         return multi_check(prop, tier, seed)
     if prop == "C18":
         return c18_check(prop, tier, seed)
+    if prop == "C19":
+        # impossible sizes are refused by the arena itself as well as by the collections
+        table = dict(B.MISMATCH_PROPS)
+        table.update(B.VEC_MISMATCH_PROPS)
+        return engine_check(prop, tier, seed, B.multi_run([B.vec_run, B.arena_run]), table,
+                            VEC_ASSUMPTIONS + ARENA_ASSUMPTIONS, "vec_driver", "vec_check")
     if prop == "C20":
         # collections carry their arena with them: the vec engine's cross-arena section counts too
         table = dict(B.MISMATCH_PROPS)
